@@ -153,3 +153,24 @@ def replay_catalogue(c, wd, pid):
     if unexpected:
         c.note("the library accepts inputs RFC 1951 and zlib reject, beyond the documented leniencies: %s" % unexpected[:5])
     return rs
+
+
+def all_pairs(c, wd, pid):
+    """Every (length, distance, spelling of 258) pair under the fixed code and under a dynamic
+    code whose length and far-distance symbols have the longest codes: the tables come from
+    Gen_Tables (RFC 1951 as transcribed in Deflate.tla), the harness only concatenates fields."""
+    tab = os.path.join(wd, "tables.json")
+    generate("Gen_Tables", wd, tab, invariants=["Replay"], timeout=900, workers=2)
+    res = os.path.join(wd, "pairs.res")
+    vh(["deflate-pairs", "--tables", tab, "--out", res, "--stride", 1, "--threads", 14], timeout=3600)
+    for r in read_ndjson(res):
+        if r["kind"] == "summary":
+            c.cov["evaluations"] += r["pairs"]
+            c.cov["length_distance_pairs"] = r
+            c.cov["exhaustive"] = True
+        elif r["prop"] == "MODEL":
+            raise ToolError("all-pairs: " + r["why"])
+        elif r["prop"] == pid:
+            c.violation("pairs:" + r["code"], "%s [%s code, %d pairs from (len index %d, dist %d)]" % (
+                r["why"], r["code"], r["pairs"], r["first_pair"][0], r["first_pair"][1]),
+                {"kind": "deflate-hex", "hex": r.get("hex"), "code": r["code"], "first_pair": r["first_pair"]})
